@@ -647,9 +647,16 @@ def backoff_iter(start, stop, count=None, factor=2.0, jitter=False):
     if stop < start:
         raise ValueError('expected stop >= start, not %r' % stop)
     if count is None:
-        denom = start if start else 1
-        count = 1 + math.ceil(math.log(stop/denom, factor))
-        count = count if start else count + 1
+        # the number of values the loop below yields up to and including
+        # stop, found with the loop's own arithmetic (a float logarithm
+        # can land on the wrong side of an integer)
+        count, cur = 1, start
+        while cur < stop:
+            nxt = cur * factor if cur else 1.0
+            if nxt == cur:
+                raise ValueError('expected factor > 1.0 to reach stop from'
+                                 ' start (or pass a count), not %r' % factor)
+            count, cur = count + 1, nxt
     if count != 'repeat' and count < 0:
         raise ValueError('count must be positive or "repeat", not %r' % count)
     if jitter:
